@@ -37,6 +37,12 @@ def col_of(pre, i):
     return H.Col(pre.phys[i], pre.node, pre.uuids[i], pre.dtypes[i], pre.ftypes[i])
 
 
+def old_col_of(pre, i):
+    """a column handle taken BEFORE the column got its current name (e.g. `t.a` after `rename({"a": ..})`): same uuid, the
+    name it was created with - verbs must resolve it by identity and use the CURRENT name"""
+    return H.Col(pre.cname[i], pre.node, pre.uuids[i], pre.dtypes[i], pre.ftypes[i])
+
+
 # ---- steps: (label, fn(pre, table) -> new table) ------------------------------------------
 
 
@@ -74,6 +80,15 @@ def steps_for(pre: TS.Pre, tier):
         out.append(("summarize(k0=c0.max,k1=count)", lambda pre, t: t >> pdt.summarize(**{pre.nn("k0"): col_of(pre, 0).max(), pre.nn("k1"): pdt.count()})))
     out.append(("alias", lambda pre, t: t >> pdt.alias("z")))
     out.append(("alias_keep", lambda pre, t: t >> pdt.alias(keep_col_refs=True)))
+    # the same verbs through handles that still carry an older name of the column
+    if vis:
+        out.append(("select(old handles, reversed)", lambda pre, t: t >> pdt.select(*[old_col_of(pre, i) for i in reversed(pre.vis)])))
+        out.append((f"group_by(old handle {vis[0]})", lambda pre, t: t >> pdt.group_by(old_col_of(pre, pre.vis[0]))))
+        out.append((f"rename(old handle {vis[0]}->r0)", lambda pre, t: t >> pdt.rename({old_col_of(pre, pre.vis[0]): pre.nn("r0")})))
+        out.append((f"summarize(k0=old handle c{vis[0]}.max)", lambda pre, t: t >> pdt.summarize(**{pre.nn("k0"): old_col_of(pre, pre.vis[0]).max()})))
+        out.append((f"mutate(k0=old handle c{vis[0]}+1)", lambda pre, t: t >> pdt.mutate(**{pre.nn("k0"): old_col_of(pre, pre.vis[0]) + 1})))
+        if len(vis) > 1:
+            out.append((f"drop(old handle {vis[0]})", lambda pre, t: t >> pdt.drop(old_col_of(pre, pre.vis[0]))))
     return out
 
 
@@ -437,8 +452,11 @@ def obligations(tier):
                     tags=("cross_backend",),
                 )
             )
-    from . import c10
+    from . import c01, c10
 
+    for si in range(3):
+        obs.append(Obligation(f"C11/M8/hidden_refs/stasher{si}", "M8", "columns() / iteration agree with the exported frame on Polars and SQLite when hidden columns are referenced through an earlier table object, also across alias(keep_col_refs=True) and subqueries (native)",
+                              c01.make_h("mixed", si), functions=[H.fn_info(H.sql_backend.SqlImpl.compile_ast), H.fn_info(TS.Cache.update)], bounded="one column-hiding step >> every step of the C01 alphabet >> with / without alias(keep_col_refs=True) >> 3 uses of the hidden column"))
     obs.append(Obligation("C11/M7/caller_containers", "M7", "metadata and frame stay in agreement when the caller changes a dict / list it passed to a verb afterwards (native)", c10.f3_run,
                           functions=[H.fn_info(verbs_mod.rename), H.fn_info(verbs_mod.join)], bounded="11 call shapes x 2 backends (native execution)"))
     return obs
